@@ -86,6 +86,9 @@ Binding(c) ==
   /\ out' = {[k |-> "resp", to |-> c, m |-> "Binding", cls |-> "ok", code |-> 0, mapped |-> c]}
   /\ last' = [a |-> "Binding", c |-> c]
 
+\* users named q1, q2 may hold one allocation at a time (the operator's quota handler counts them); the quota
+\* is consulted only for a NEW allocation: a retransmission and a second Allocate on a 5-tuple are answered first
+QuotaOne == Users \cap {"q1", "q2"}
 (* handleAllocateRequest, authenticated as u.  tk: "none" | "even" (EVEN-PORT) | "bogus" | a client *)
 (* name d (RESERVATION-TOKEN issued to d).  alloc[c].port is the class of the relayed port:        *)
 (* <<"any">>, <<"even">> (it reserved the next port) or <<"next", d>> (the port d reserved).        *)
@@ -109,7 +112,7 @@ Allocate(c, u, lr, tx, rf, tk) ==
            THEN UNCHANGED state /\ out' = {Err(c, "Allocate", 440)}
            ELSE IF tk \in Clients /\ rf # 0
              THEN UNCHANGED state /\ out' = {Err(c, "Allocate", 400)}    \* token and family are mutually exclusive
-             ELSE IF u \in QuotaDenied
+             ELSE IF u \in QuotaDenied \/ (u \in QuotaOne /\ \E x \in Clients : alloc[x].live /\ alloc[x].user = u)
                THEN UNCHANGED state /\ out' = {Err(c, "Allocate", 486)}  \* allocation quota reached
              ELSE IF Granted(lr) = 0 \/ (tk \in Clients /\ NextHeld(tk))
                THEN \* zero lifetime, or the reserved port is in use: 508, nothing created
@@ -223,6 +226,20 @@ PeerData(c, p, pay, len) ==
               THEN {[k |-> "toclient", to |-> c, via |-> "ind", n |-> 0, peer |-> p, pay |-> pay]}
             ELSE {}
 
+(* Clients named s1, s2 reach the server over a stream listener (TCP between client and server; the  *)
+(* 5-tuple differs from a datagram client's in the transport only -- the harness gives s1 the IP and   *)
+(* port of c1).  Requests, indications and ChannelData behave as above.  When the control connection  *)
+(* ends the server deletes the allocation of that 5-tuple at once (server.go readLoop, stream case).  *)
+StreamClients == Clients \cap {"s1", "s2"}
+ConnClose(c) ==
+  /\ c \in StreamClients
+  /\ last' = [a |-> "ConnClose", c |-> c]
+  /\ alloc' = [alloc EXCEPT ![c] = NoAlloc]
+  /\ perm'  = [perm EXCEPT ![c] = NoPerms]
+  /\ chan'  = [chan EXCEPT ![c] = NoChans]
+  /\ UNCHANGED resv
+  /\ out' = {}
+
 ---------------------------------------------------------------------------
 (* Time.                                                                   *)
 Rems ==
@@ -258,6 +275,7 @@ Next ==
   \/ \E c \in Clients, p \in Peers, pay \in Pays, len \in Lens : SendInd(c, p, pay, len)
   \/ \E c \in Clients, n \in ChanNums, pay \in Pays, len \in Lens : ChanData(c, n, pay, len)
   \/ \E c \in Clients, p \in Peers, pay \in Pays, len \in Lens : PeerData(c, p, pay, len)
+  \/ \E c \in StreamClients : ConnClose(c)
   \/ \E d \in Jumps : Advance(d)
 
 Spec == Init /\ [][Next]_vars
